@@ -101,6 +101,7 @@ Step(e) ==
     [] e.e = "fsel"  -> FStep(e, [i \in 1..N |-> FLaneOK(e.o, V[e.a][i], V[e.b][i], FromImage(e.r)[i], IF K[e.k][i] THEN 1 ELSE 0)])
     [] e.e = "fb2v"  -> FStep(e, [i \in 1..N |-> FLaneOK("b2v", ZeroLane, ZeroLane, FromImage(e.r)[i], IF K[e.k][i] THEN 1 ELSE 0)])
     [] e.e = "fcmp"  -> KStep(e, [i \in 1..N |-> FLanePred(e.o, V[e.a][i], V[e.b][i])], KSet(e.k, Bools(e.m)))
+    [] e.e = "fpred" -> KStep(e, [i \in 1..N |-> FLanePred(e.o, V[e.a][i], ZeroLane)], KSet(e.k, Bools(e.m)))
     [] e.e = "fnz"   -> KStep(e, [i \in 1..N |-> FLanePred("nz", V[e.a][i], ZeroLane)], KSet(e.k, Bools(e.m)))
     \* gather / scatter: the driver builds the index register itself (an earlier setvec), always inside the arena
     [] e.e = "gather" -> IF GSDom(e.p, e.b, e.n) THEN VStep(e, AllLanes, GatherRes(e.p, e.b, e.n), Gather(e.d, e.p, e.b, e.n))
